@@ -2197,6 +2197,19 @@ func genLateDial(r *rng, seed uint64) *plan.Plan {
 		ld.CloseAtUs = 1
 	}
 	ld.SecondClose = r.p(0.3)
+	if r.p(0.25) {
+		// a dial that stalls for seconds (handshake never answered) under a
+		// dialer that watches its context: Close has to reach it, and the
+		// exchanges waiting for it return at once
+		ld.HonourCtx = true
+		d = r.i64(2_500_000, 4_500_000)
+		ld.DialDelayUs = []int64{d}
+		ld.DialTimeoutUs = []int64{0, 5_000_000}[r.intn(2)]
+		ld.CallAtUs = ld.CallAtUs[:1]
+		ld.CallAtUs[0] = r.i64(0, 100_000)
+		ld.CallLimitUs = 8_000_000
+		ld.CloseAtUs = ld.CallAtUs[0] + r.i64(1_000, 1_000_000)
+	}
 	p.LateDial = ld
 	k := plan.Knobs{GetFill: r.intn(3)}
 	if r.p(0.7) {
